@@ -317,6 +317,16 @@ func (f *sourceFile) marshalSourceFile() (string, error) {
 	return string(jstr), nil
 }
 
+// checkPathElement makes sure that a file name from the peer is a single path element,
+// so that joining it to the destination path can never escape from the destination.
+func checkPathElement(name string) error {
+	if name == "" || name == "." || name == ".." || strings.ContainsAny(name, "/\x00") ||
+		strings.ContainsRune(name, filepath.Separator) || filepath.VolumeName(name) != "" || !filepath.IsLocal(name) {
+		return simpleTrzszError("Invalid file name: %s", name)
+	}
+	return nil
+}
+
 func unmarshalSourceFile(source string) (*sourceFile, error) {
 	var file sourceFile
 	if err := json.Unmarshal([]byte(source), &file); err != nil {
@@ -324,6 +334,11 @@ func unmarshalSourceFile(source string) (*sourceFile, error) {
 	}
 	if len(file.RelPath) < 1 {
 		return nil, simpleTrzszError("Invalid source file: %s", source)
+	}
+	for _, name := range file.RelPath {
+		if err := checkPathElement(name); err != nil {
+			return nil, err
+		}
 	}
 	return &file, nil
 }
